@@ -26,7 +26,7 @@ theorem bind_eq_ok {α β} {r : Res α} {g : α → Res β} {b : β} (h : (r >>=
 theorem widen_eq_ok {α} {t xs fs extra} {r : Res α} {a : α} (h : widen t xs fs extra r = .ok a) : r = .ok a := by
   cases r with
   | ok a' => exact h
-  | err c => simp only [widen] at h; split at h <;> cases h
+  | err c => simp only [widen] at h; split at h <;> (try split at h) <;> cases h
   | panic w => cases h
   | nondet => cases h
   | unmodelled w => cases h
